@@ -28,12 +28,25 @@ sys.path.insert(0, os.path.dirname(os.path.abspath(__file__)))
 from props import PROPS  # per-property configuration
 
 
-# multiples of the builders' thorough case lists, sized so that one thorough run takes roughly 5-15 minutes on 16 idle cores
-THOROUGH_SCALE = {"C01": 6, "C02": 24, "C03": 6, "C04": 40, "C05": 16, "C06": 2, "C07": 3, "C08": 3, "C09": 3, "C10": 2,
-                  "C12": 5, "C13": 2, "C15": 16, "C16": 12, "C20": 4}
-
-# the same for the quick tier: checks whose builder-sized quick list takes < 4 s run a multiple of it (10-20 s)
-QUICK_SCALE = {"C02": 6, "C03": 4, "C04": 8, "C05": 8, "C10": 4, "C11": 4, "C12": 3, "C15": 4, "C16": 4, "C19": 4, "C20": 2}
+# Case-list multiples: (quick k, thorough k, regex of the monitors whose lists are stretched).  Only monitors whose case index
+# is nothing but a PRNG stream address are named (no enumerations, no directed lists); sized so that the quick tier of a check
+# takes 10-30 s and the thorough tier roughly 5-15 minutes on 16 idle cores.
+CASE_SCALE = {
+    "C01": (1, 6, r"^programs$"),
+    "C02": (2, 10, r"^(intwrap|pred)$"),
+    "C03": (2, 4, r"^(ops|constvec)/"),
+    "C04": (8, 30, r"^(inverse|solve|backsub|det|singular|views)$"),
+    "C05": (8, 16, r"."),
+    "C06": (1, 2, r"^(a|b|c|b\.forcepd|c\.helpers)$"),
+    "C07": (1, 3, r"^(bfgs|newton|rprop|rprop\.constrained|gradientDescent|adam|saga|lineSearch|blahut)$"),
+    "C08": (1, 3, r"\.random$"),
+    "C09": (1, 3, r"^(alias\.)?random$"),
+    "C13": (1, 2, r"\.sweep$"),
+    "C15": (3, 12, r"^(hmm|hmm\.matrix|hmm\.bw|hmm\.variants|mixture)$"),
+    "C16": (3, 10, r"."),
+    "C19": (4, 1, r"^(dense|sparse-keys|iterator-stress)$"),
+    "C20": (1, 4, r"^no-return\.small-int$"),
+}
 
 RACE_FILES = set()  # event files written by workers of the -race build
 
@@ -182,13 +195,14 @@ def main():
     cfg = PROPS[prop]
     t0 = time.time()
     # thorough tier: cheap checks run a multiple of their case list (same PRNG addressing, longer lists)
-    GOENV["VERIF_THOROUGH_SCALE"] = str(cfg.get("thorough_scale", THOROUGH_SCALE.get(prop, 1)))
-    GOENV["VERIF_QUICK_SCALE"] = str(cfg.get("quick_scale", QUICK_SCALE.get(prop, 1)))
 
     replay = None
     if a.replay:
         replay = json.load(open(a.replay))
         a.seed, a.tier = replay["seed"], replay["tier"]
+    qk, tk, sre = CASE_SCALE.get(prop, (1, 1, ""))
+    GOENV["VERIF_CASES_SCALE"] = str(tk if a.tier == "thorough" else qk)
+    GOENV["VERIF_CASES_SCALE_RE"] = sre
 
     binary, err = build(prop, race=False)
     if binary is None:
@@ -393,7 +407,7 @@ def main():
                 "known_findings_open": sorted(open_sigs),
                 "worker_shards_completed": done_files, "lost_cases": [{k: l[k] for k in ("case", "kind", "rc")} for l in lost],
                 "tolerances": cfg.get("tolerances", "exact comparison"),
-                "case_list_multiple": int(GOENV.get("VERIF_THOROUGH_SCALE", "1")) if a.tier == "thorough" else int(GOENV.get("VERIF_QUICK_SCALE", "1")),
+                "case_list_multiple": {"k": int(GOENV.get("VERIF_CASES_SCALE", "1")), "monitors": GOENV.get("VERIF_CASES_SCALE_RE", "")},
                 "exhaustive": False,
             },
             "assumptions": cfg.get("assumptions", []) + ([oracle_note] if oracle_note else []),
